@@ -102,4 +102,51 @@ Section Quad.
     apply (IV1 _ L).
   Qed.
 
+
+  (* ---------------------------------------------------------------- the two implementations *)
+  Variable divq : R -> R.      (* division by dim (the number of contrast rows) *)
+
+  (* fmri.glm: multiple_mahalanobis(d, V) / dim with W the inverse returned by LAPACK *)
+  Definition fmri_F (W : list (list R)) (d : list R) : R := divq (quad W d).
+  (* labs.glm: fff_mahalanobis(d, V) / dim with y the result of the triangular solve L y = d *)
+  Definition labs_F (y : list R) : R := divq (dot y y).
+
+  (* Cholesky route = inverse route: if S = L L^t (dpotrf), L y = d (dtrsv), L is
+     nonsingular (injective; dpotrf succeeds only with a positive diagonal), then
+     sum y_i^2 = d' W d for ANY two-sided inverse W of S. *)
+  Theorem chol_quad_is_quad q (V W L Lt : list (list R)) (d y : list R) :
+    length d = q -> length y = q -> length W = q -> length Lt = q ->
+    rows_len q L ->
+    inv_on q V W ->
+    transpose_of q L Lt ->
+    (forall z, length z = q -> mv V z = mv L (mv Lt z)) ->
+    (forall a b, length a = q -> length b = q -> mv L a = mv L b -> a = b) ->
+    mv L y = d ->
+    dot y y = quad W d.
+  Proof.
+    intros Ld Ly LW LLt RL IV TL HV Linj Hy.
+    set (z := mv W d).
+    assert (Lz : length z = q) by (unfold z; rewrite (mv_length R r0 radd rmul); exact LW).
+    assert (HVz : mv V z = d) by (apply (IV d Ld)).
+    assert (E : mv Lt z = y).
+    { apply Linj; [rewrite (mv_length R r0 radd rmul); exact LLt|exact Ly|].
+      rewrite <- (HV z Lz), HVz. symmetry. exact Hy. }
+    unfold quad. fold z. rewrite <- Hy at 1.
+    rewrite (dot_comm' (mv L y) z).
+    rewrite <- (dot_vm' q z L y RL).
+    rewrite <- (TL z Lz). now rewrite E.
+  Qed.
+
+  Corollary labs_F_is_fmri_F q (V W L Lt : list (list R)) (d y : list R) :
+    length d = q -> length y = q -> length W = q -> length Lt = q ->
+    rows_len q L ->
+    inv_on q V W ->
+    transpose_of q L Lt ->
+    (forall z, length z = q -> mv V z = mv L (mv Lt z)) ->
+    (forall a b, length a = q -> length b = q -> mv L a = mv L b -> a = b) ->
+    mv L y = d ->
+    labs_F y = fmri_F W d.
+  Proof.
+    intros. unfold labs_F, fmri_F. f_equal. eapply chol_quad_is_quad; eassumption.
+  Qed.
 End Quad.
